@@ -34,7 +34,7 @@ struct GdsWriter {
     void* owner;
 
     ErrorCode write_cell(Cell& cell) const {
-        return cell.to_gds(out, unit / precision, max_points, precision, &timestamp);
+        return cell.to_gds(out, unit / precision, max_points, precision / unit, &timestamp);
     }
 
     ErrorCode write_rawcell(RawCell& rawcell) const { return rawcell.to_gds(out); }
